@@ -126,6 +126,41 @@ def rule_edge(ctx: Ctx):
                   "the label lists the transition's guard specs when there are any", fn.key, f"label={lt}")
 
 
+def rule_label_source(ctx: Ctx):
+    """C18.edge: the text used for edge labels is the transition's events as they are *now*: either computed from the
+    Events collection on access, or - if cached - refreshed by every function that changes that collection."""
+    rep = ctx.rep
+    ev = ctx.p.find_fn("Transition.event")
+    if ev is None:
+        raise AnalysisError("anchor lost: Transition.event")
+    rep.note_fn(ev)
+    cached = None
+    for p in ctx.paths(ev, inline=None, exc_edges="none"):
+        v = xshow(p.value, p.events) if p.kind == "return" else ""
+        if "self._events" in v:
+            rep.ok("C18.edge", ev.loc(), "Transition.event is computed from the events collection at every access", value=v)
+        else:
+            m = p.value
+            cached = m.attr if isinstance(m, ast.Attribute) and show(m.value) == "self" else v
+    if cached is None:
+        return
+    # every mutation of a transition's Events collection outside class Events must refresh the cache
+    n = 0
+    for fn in ctx.p.all_functions():
+        if fn.cls is not None and fn.cls.name == "Events":
+            continue
+        for node in own_nodes(fn.node):
+            if isinstance(node, ast.Call) and isinstance(node.func, ast.Attribute) and node.func.attr in ("add", "_replace", "append", "remove"):
+                recv = node.func.value
+                ty = ctx.r.typeof(recv, fn, ())
+                if "Events" in ty or show(recv).endswith((".events", "._events")):
+                    n += 1
+                    refreshes = any(isinstance(x, ast.Attribute) and isinstance(x.ctx, ast.Store) and x.attr == cached for x in own_nodes(fn.node))
+                    rep.check(refreshes, "C18.edge", fn.loc(node), f"`{fn.qualname}` changes a transition's events and refreshes the cached label text `{cached}`",
+                              fn.key, norm_stmt(node), cached=cached)
+    rep.floor("C18.edge", "mutation sites of a transition's events", n, 1)
+
+
 def rule_node(ctx: Ctx):
     rep = ctx.rep
     fn = ctx.fn(f"{CLS}._state_as_node")
@@ -137,7 +172,16 @@ def rule_node(ctx: Ctx):
             continue
         ctor = next((e for e in p.calls() if show(e.term.func) == "pydot.Node"), None)
         if ctor is None:
-            rep.unrecognised("C18.node", fn.loc(), "no pydot.Node construction")
+            # a node that was not built in this call (reused from an earlier rendering): every style attribute the
+            # highlight logic sets anywhere must be set on this path too, or an earlier rendering's highlight survives
+            setters_all = {n_.func.attr for n_ in own_nodes(fn.node) if isinstance(n_, ast.Call) and isinstance(n_.func, ast.Attribute)
+                           and n_.func.attr.startswith("set_")}
+            here = {e.term.func.attr for e in p.calls() if isinstance(e.term.func, ast.Attribute) and e.term.func.attr.startswith("set_")}
+            missing = sorted(setters_all - here)
+            rep.check(not missing, "C18.highlight", fn.loc(), "a node reused from an earlier rendering gets every highlight attribute reset",
+                      fn.key, f"reused node: {missing} set elsewhere but not on this path (a formerly current state keeps its highlight)",
+                      missing=missing)
+            continue
         rep.check(show(p.value) == f"$c{ctor.idx}" and show(ctor.term.args[0]) == f"{st}.id", "C18.node", ctor.loc(),
                   "the node is identified by the state's id (what edges refer to)", fn.key, norm_stmt(ctor.node))
         kw = {k.arg: k.value for k in ctor.term.keywords}
@@ -189,4 +233,4 @@ def rule_node(ctx: Ctx):
     rep.check(ok, "C18.node", sa.loc(), "internal transitions (and only they) are listed inside their state's label", sa.key, "internal-transition listing")
 
 
-RULES = [rule_graph, rule_initial, rule_edge, rule_node]
+RULES = [rule_graph, rule_initial, rule_edge, rule_label_source, rule_node]
